@@ -45,6 +45,11 @@ def gen_case(rng, i, tier):
             if c not in cuts:
                 cuts.append(c)
     case["cuts"] = cuts
+    if rng.random() < 0.3:
+        # the incremental matcher object is not new: it matched ANOTHER trace before (longer than the prefixes, or shorter,
+        # often stopping early); incremental matching on it must still equal a one-shot match on a fresh matcher
+        pre = gen.gen_trace(rng, case["map"], k=rng.choice([n + 2, n + 3, rng.randint(2, 7)]), kind=rng.choice(["walk", "walk", "outlier", "sparse"]))
+        case["pre_trace"] = pre
     return case
 
 
@@ -68,6 +73,12 @@ def check_case(ctx, case):
     for cut in case["cuts"]:
         mt = build.make_matcher(build.make_inmem(case["map"]), cfg)
         ks = list(cut) + [n]
+        if case.get("pre_trace"):
+            ctx.count("incremental_runs_on_a_reused_matcher")
+            try:
+                mt.match(build.trace(case["pre_trace"]))
+            except Exception:
+                pass
         try:
             r = mt.match(tr[:ks[0]])
             continuing = True
